@@ -109,13 +109,22 @@ Definition change_is (k c : N) : bool := N.eqb k c || negb (N.eqb (N.land k c) 0
 
 Definition new_prefix : str := [110; 101; 119; 95]%N.   (* "new_" *)
 
+Definition sqlite_autoindex : str :=     (* "sqlite_autoindex" *)
+  [115; 113; 108; 105; 116; 101; 95; 97; 117; 116; 111; 105; 110; 100; 101; 120]%N.
+
 (** sql/sqlite/migrate.go: alterable *)
 Fixpoint alterable (cs : list tchange) : bool :=
   match cs with
   | [] => true
   | c :: cs' =>
     match c with
-    | RenameColumn _ _ | RenameIndex _ _ | DropIndex _ | AddIndex _ => alterable cs'
+    | RenameColumn _ _ | RenameIndex _ _ | AddIndex _ => alterable cs'
+    | DropIndex i =>
+        (* an index that backs an inline UNIQUE constraint cannot be dropped with DROP INDEX *)
+        match has_prefix sqlite_autoindex i with
+        | Some _ => false
+        | None => alterable cs'
+        end
     | AddColumn c0 =>
         if rc_hasidx c0 || rc_hasfk c0 then false
         else match rc_dkind c0 with
